@@ -191,6 +191,9 @@ def run(prog, rep, tier, cfg):
     rep.need('K5', 'power:only-exec-sender', [s.c.fn.id for s in execs] == ['fil_actor_power::Actor::create_miner'], 'the only workspace sender of init.Exec is power.create_miner: %s' % [s.c.fn.id for s in execs])
     CM = X.fn('Actor::create_miner', 'fil_actor_power')
     X.value_from('K10', 'power:exec-miner-code', CM, X.agg_field_atoms(CM, 'ExecParams', 'code_cid', narrow=False), ['C:Runtime::get_code_cid_for_type', 'E:Type::Miner'], 'power execs the miner code')
+    # ---- error discipline: no Result produced in these crates is silently discarded
+    X.no_dropped_results('K14', 'results-not-discarded', ['fil_actor_init', 'fil_actor_eam', 'fil_actor_evm'], 'no Result of a call is discarded')
+
 
 
 def exec_gates(prog, rep, X, T, prefix=''):
